@@ -93,14 +93,15 @@ func (h *Authenticate) Unmarshal(v base.HeaderValue) error {
 	}
 
 	if h.Method == AuthMethodBasic {
-		kvs, err := keyValParse(v0, ',')
+		keys, kvs, err := keyValParseOrdered(v0, ',')
 		if err != nil {
 			return err
 		}
 
 		realmReceived := false
 
-		for k, rv := range kvs {
+		for _, k := range keys {
+			rv := kvs[k]
 			v := rv
 
 			if k == "realm" {
@@ -113,7 +114,7 @@ func (h *Authenticate) Unmarshal(v base.HeaderValue) error {
 			return fmt.Errorf("realm is missing")
 		}
 	} else { // digest
-		kvs, err := keyValParse(v0, ',')
+		keys, kvs, err := keyValParseOrdered(v0, ',')
 		if err != nil {
 			return err
 		}
@@ -121,7 +122,8 @@ func (h *Authenticate) Unmarshal(v base.HeaderValue) error {
 		realmReceived := false
 		nonceReceived := false
 
-		for k, rv := range kvs {
+		for _, k := range keys {
+			rv := kvs[k]
 			v := rv
 
 			switch k {
